@@ -38,13 +38,19 @@ Fixpoint dscanA (e' fuel cp ll : nat) (nn : bool) : resA :=
       else RetA E_DCHAR)
   end.
 
+(* the two length tests short-circuit exactly as in C: start[end - start - 1] is read only when the length test before it
+   does not already decide *)
 Definition ascii_domainA : resA :=
   if Nat.eqb e 0 then RetA E_DOMAIN_EMPTY else
-  rdD (e - 1)%nat (fun last =>                                         (* start[end - start - 1] *)
-    let dot := code last =? 46 in
-    if ((Nat.leb 255 e) || ((Nat.eqb e 254) && negb dot))%bool then RetA E_DOMAIN_LONG
-    else let e' := (if ((Nat.leb 2 e) && dot)%bool then (e - 1)%nat else e) in
-         dscanA e' (S e') 0 0 false).
+  let strip :=
+    if Nat.leb 2 e
+    then rdD (e - 1)%nat (fun last =>                                  (* end - start >= 2 && start[end - start - 1] == '.' *)
+           let e' := (if code last =? 46 then (e - 1)%nat else e) in dscanA e' (S e') 0 0 false)
+    else dscanA e (S e) 0 0 false in
+  if Nat.leb 255 e then RetA E_DOMAIN_LONG
+  else if Nat.eqb e 254
+       then rdD (e - 1)%nat (fun last => if negb (code last =? 46) then RetA E_DOMAIN_LONG else strip)
+       else strip.
 End A.
 
 Lemma firstn_removelast {A} (l : list A) : firstn (length l - 1) l = removelast l.
@@ -128,19 +134,26 @@ Proof.
   assert (Hm : match s with [] => E_DOMAIN_EMPTY | _ :: _ => (if Nat.leb 255 (length s) || (Nat.eqb (length s) 254 && negb (last_is_dot s)) then E_DOMAIN_LONG else if Nat.leb 2 (length s) && last_is_dot s then dscan us 0 false (removelast s) (DOT :: rest) else dscan us 0 false s rest) end = (if Nat.leb 255 (length s) || (Nat.eqb (length s) 254 && negb (last_is_dot s)) then E_DOMAIN_LONG else if Nat.leb 2 (length s) && last_is_dot s then dscan us 0 false (removelast s) (DOT :: rest) else dscan us 0 false s rest)) by (destruct s; [congruence|reflexivity]).
   rewrite Hm. clear Hm.
   assert (Hl : (e - 1 < e)%nat) by lia. destruct (dnth_some (e - 1) Hl) as (lb & Elb).
-  unfold rdD. rewrite dload_in by exact Hl. rewrite Elb.
   assert (Hlast : last s NUL = lb).
   { pose proof (nth_error_last s NUL Hne0) as Hn. fold e in Hn. congruence. }
   unfold last_is_dot. rewrite Hlast. fold e.
-  destruct (Nat.leb 255 e || (Nat.eqb e 254 && negb (code lb =? 46))); [reflexivity|].
-  destruct (Nat.leb 2 e && (code lb =? 46)) eqn:Estrip.
-  - apply andb_true_iff in Estrip as (H2 & Hd). apply Nat.leb_le in H2.
-    rewrite dscanA_refines by lia. f_equal.
-    assert (Hf : firstn (e - 1) s = removelast s) by (unfold e; apply firstn_removelast).
-    assert (Hs : skipn (e - 1) s = [DOT]).
-    { unfold e. rewrite (skipn_last s NUL Hne0). rewrite Hlast. f_equal. apply N.eqb_eq in Hd. apply code_inj. rewrite Hd. reflexivity. }
-    cbn [skipn]. rewrite Hf, Hs. reflexivity.
-  - rewrite dscanA_refines by lia. f_equal. cbn [skipn]. unfold e. rewrite firstn_all, skipn_all. reflexivity.
+  assert (Hstrip : (if Nat.leb 2 e
+    then rdD buf (e - 1)%nat (fun last => let e' := (if code last =? 46 then (e - 1)%nat else e) in dscanA us buf e' (S e') 0 0 false)
+    else dscanA us buf e (S e) 0 0 false) =
+    RetA (if Nat.leb 2 e && (code lb =? 46) then dscan us 0 false (removelast s) (DOT :: rest) else dscan us 0 false s rest)).
+  { destruct (Nat.leb_spec 2 e) as [H2|H2]; cbn [andb].
+    - unfold rdD. rewrite dload_in by exact Hl. rewrite Elb. cbv zeta. destruct (code lb =? 46) eqn:Hd.
+      + rewrite dscanA_refines by lia. f_equal.
+        assert (Hf : firstn (e - 1) s = removelast s) by (unfold e; apply firstn_removelast).
+        assert (Hs : skipn (e - 1) s = [DOT]).
+        { unfold e. rewrite (skipn_last s NUL Hne0). rewrite Hlast. f_equal. apply N.eqb_eq in Hd. apply code_inj. rewrite Hd. reflexivity. }
+        cbn [skipn]. rewrite Hf, Hs. reflexivity.
+      + rewrite dscanA_refines by lia. f_equal. cbn [skipn]. unfold e. rewrite firstn_all, skipn_all. reflexivity.
+    - rewrite dscanA_refines by lia. f_equal. cbn [skipn]. unfold e. rewrite firstn_all, skipn_all. reflexivity. }
+  destruct (Nat.leb 255 e); [reflexivity|]. cbn [orb].
+  destruct (Nat.eqb e 254); cbn [andb].
+  - unfold rdD at 1. rewrite dload_in by exact Hl. rewrite Elb. destruct (negb (code lb =? 46)); [reflexivity|]. exact Hstrip.
+  - exact Hstrip.
 Qed.
 End Refine.
 
